@@ -18,7 +18,7 @@ from .patches import TimeShim, counter_from, patched
 
 logging.getLogger("aiortc").setLevel(logging.CRITICAL)
 
-DELAYS_MS = [0, 1, 5, 20, 100, 400, 1500, 4000]
+DELAYS_MS = [0, 1, 5, 20, 100, 400, 1500, 4000, 1100, 900, 2200]  # appended values keep the meaning of older replays
 BASE_LATENCY = 0.010
 
 
@@ -56,6 +56,7 @@ class Link:
         self.loop = loop
         self.fates = [deque(fates[0]), deque(fates[1])]
         self.healed = False
+        self.paused = False  # while set, datagrams are delivered normally and no fate is consumed (warm-up phases)
         self.inbox = [deque(), deque()]
         self.wakeup = [asyncio.Event(), asyncio.Event()]
         self.sent = [0, 0]
@@ -76,7 +77,7 @@ class Link:
         self.sent[side] += 1
         if self.tap:
             self.tap(side, data)
-        fate = self.fates[side].popleft() if (self.fates[side] and not self.healed) else ["d", 0]
+        fate = self.fates[side].popleft() if (self.fates[side] and not self.healed and not self.paused) else ["d", 0]
         if not isinstance(fate, (list, tuple)) or not fate or fate[0] not in ("d", "x", "2") or \
                 not all(isinstance(x, int) for x in fate[1:]):
             fate = ["d", 0]  # malformed entries (only ddmin produces them) mean "deliver"
@@ -180,6 +181,9 @@ class Session:
         self.was_established = [False, False]
         self.stall: Optional[str] = None
         self.virtual_end = 0.0
+        self.meter_budget: Optional[Callable[[int, bytes], int]] = None  # per-datagram work budget (C05)
+        self.max_work = 0
+        self.extra_op: Optional[Callable[[int, dict], None]] = None  # handler for op kinds the simulator does not know
 
     # ------------------------------------------------------------------
     def _chan_by_obj(self, obj: Any) -> Optional[tuple]:
@@ -257,7 +261,14 @@ class Session:
             if receiver is None:
                 continue
             try:
-                await receiver._handle_data(data)
+                if self.meter_budget is not None:
+                    from .workmeter import work_meter
+
+                    with work_meter(self.meter_budget(side, data)) as meter:
+                        await receiver._handle_data(data)
+                    self.max_work = max(self.max_work, meter.count)
+                else:
+                    await receiver._handle_data(data)
             except Exception as exc:  # what RTCDtlsTransport.__run would turn into CLOSED
                 self.endpoint_exc[side] = exc
                 self.dtls[side].state = "closed"
@@ -462,6 +473,11 @@ class Session:
             ch = rec.objs.get(op["side"] % 2)
             if ch is not None:
                 ch.bufferedAmountLowThreshold = op["value"]
+        elif kind == "faults":
+            if self.link is not None:
+                self.link.paused = not op.get("on", True)
+        elif self.extra_op is not None and isinstance(kind, str) and kind:
+            self.extra_op(n, op)
 
     # ------------------------------------------------------------------
     def quiescent_report(self) -> dict:
